@@ -125,7 +125,27 @@ func MergerLoops(p *load.Prog, r *oblig.Report, rule string) {
 		fn, _ := typeutil.Callee(info, call).(*types.Func)
 		return fn != nil && fn.Pkg() != nil && fn.Pkg().Path() == "errors" && fn.Name() == "As" && asTotal
 	}
-	classify := func(st ast.Stmt) string {
+	var classify func(st ast.Stmt) string
+	classify = func(st ast.Stmt) string {
+		// helper(…) as a statement: what the helper's body does to the item (its top-level statements)
+		if es, isExpr := st.(*ast.ExprStmt); isExpr {
+			if call, isCall := es.X.(*ast.CallExpr); isCall {
+				if id, isID := call.Fun.(*ast.Ident); isID {
+					if hf, _ := info.Uses[id].(*types.Func); hf != nil && hf.Pkg() == pk.Types {
+						for _, hd := range p.WithHelpers(pk, fd, 1)[1:] {
+							if info.Defs[hd.Name] == hf {
+								for _, hs := range hd.Body.List {
+									if k := classify(hs); k != "" {
+										return k
+									}
+								}
+							}
+						}
+					}
+				}
+			}
+			return ""
+		}
 		as, ok := st.(*ast.AssignStmt)
 		if !ok || len(as.Lhs) != 1 || len(as.Rhs) != 1 {
 			return ""
@@ -226,13 +246,22 @@ func errorsAsTotal(p *load.Prog) bool {
 	if fn == nil {
 		return false
 	}
+	return onlyMultierrors(fn, 0)
+}
+
+// onlyMultierrors: every non-nil error fn returns is a *multierror.Error — made here, or the error result of a
+// repository helper with the same property.
+func onlyMultierrors(fn *ssa.Function, depth int) bool {
+	if depth > 3 {
+		return false
+	}
 	ei := returnsError(fn)
 	ok := true
 	n := 0
 	for _, b := range fn.Blocks {
 		for _, in := range b.Instrs {
 			ret, isRet := in.(*ssa.Return)
-			if !isRet || ei >= len(ret.Results) {
+			if !isRet || ei < 0 || ei >= len(ret.Results) {
 				continue
 			}
 			v := ret.Results[ei]
@@ -240,10 +269,17 @@ func errorsAsTotal(p *load.Prog) bool {
 				continue
 			}
 			n++
-			mi, isMI := v.(*ssa.MakeInterface)
-			if !isMI || !strings.HasSuffix(mi.X.Type().String(), "go-multierror.Error") {
-				ok = false
+			if mi, isMI := v.(*ssa.MakeInterface); isMI && strings.HasSuffix(mi.X.Type().String(), "go-multierror.Error") {
+				continue
 			}
+			if ex, isEx := v.(*ssa.Extract); isEx {
+				if call, isCall := ex.Tuple.(*ssa.Call); isCall {
+					if h := call.Common().StaticCallee(); h != nil && load.InRepo(h) && len(h.Blocks) > 0 && returnsError(h) == ex.Index && onlyMultierrors(h, depth+1) {
+						continue
+					}
+				}
+			}
+			ok = false
 		}
 	}
 	return ok && n > 0
@@ -315,23 +351,14 @@ func RejectionSites(p *load.Prog, r *oblig.Report, rule string, specs []Rejectio
 		return
 	}
 	seen := map[string]int{}
-	for _, b := range fn.Blocks {
-		for _, in := range b.Instrs {
-			al, ok := in.(*ssa.Alloc)
-			if !ok || structNameOf(al.Type()) != "ModuleTransformationSingleError" {
-				continue
-			}
+	{
+		for _, li := range LiteralInstances(fn, "ModuleTransformationSingleError") {
+			li := li
+			b := li.Site
+			al := li.Pos
 			msg := "?"
-			if refs := al.Referrers(); refs != nil {
-				for _, ref := range *refs {
-					if fa, ok := ref.(*ssa.FieldAddr); ok && fieldNameOf(al.Type(), fa.Field) == "Msg" && fa.Referrers() != nil {
-						for _, r2 := range *fa.Referrers() {
-							if st, ok := r2.(*ssa.Store); ok {
-								msg = msgText(st.Val)
-							}
-						}
-					}
-				}
+			if mv, ok := li.Fields["Msg"]; ok {
+				msg = msgText(li.Arg(mv))
 			}
 			var spec *RejectionSpec
 			for i := range specs {
@@ -350,11 +377,14 @@ func RejectionSites(p *load.Prog, r *oblig.Report, rule string, specs []Rejectio
 				conds = append(conds, stripUnique(renderCond(ce)))
 			}
 			missing := []string{}
+			// a requirement "a|b" is met by either spelling (e.g. membership in a collected list or in the live map)
 			for _, req := range spec.Requires {
 				found := false
-				for _, c := range conds {
-					if strings.Contains(c, req) {
-						found = true
+				for _, alt := range strings.Split(req, "|") {
+					for _, c := range conds {
+						if strings.Contains(c, alt) {
+							found = true
+						}
 					}
 				}
 				if !found {
@@ -418,29 +448,19 @@ func Attribution(p *load.Prog, r *oblig.Report, rule string) {
 		return
 	}
 	n := 0
-	for _, b := range fn.Blocks {
-		for _, in := range b.Instrs {
-			st, ok := in.(*ssa.Store)
-			if !ok {
-				continue
-			}
+	{
+		for _, si := range StoresWithHelpers(fn) {
+			si := si
+			st := si.St
 			al, ok := st.Val.(*ssa.Alloc)
 			if !ok || structNameOf(al.Type()) != "SourceInfo" {
 				continue
 			}
 			n++
-			target := stripUnique(AccessPath(st.Addr))
+			target := stripUnique(si.Path(st.Addr))
 			file := "?"
-			if refs := al.Referrers(); refs != nil {
-				for _, ref := range *refs {
-					if fa, ok := ref.(*ssa.FieldAddr); ok && fieldNameOf(al.Type(), fa.Field) == "File" && fa.Referrers() != nil {
-						for _, r2 := range *fa.Referrers() {
-							if s2, ok := r2.(*ssa.Store); ok {
-								file = AccessPath(s2.Val)
-							}
-						}
-					}
-				}
+			if fv, ok := litFields(al)["File"]; ok {
+				file = AccessPath(si.Arg(fv))
 			}
 			fileS := stripUnique(file)
 			construct := "source-info:" + target
@@ -690,8 +710,49 @@ func FreshMembership(p *load.Prog, r *oblig.Report, rule string) {
 		}
 		return true
 	})
+	// membership tested directly in the live map of the type being extended (always up to date)
+	ast.Inspect(fd.Body, func(nd ast.Node) bool {
+		as, ok := nd.(*ast.AssignStmt)
+		if !ok || len(as.Lhs) != 2 || len(as.Rhs) != 1 {
+			return true
+		}
+		ix, ok := ast.Unparen(as.Rhs[0]).(*ast.IndexExpr)
+		if !ok {
+			return true
+		}
+		tv, ok := info.Types[ix.X]
+		if !ok {
+			return true
+		}
+		mt, isMap := tv.Type.Underlying().(*types.Map)
+		if !isMap || !strings.HasSuffix(mt.Elem().String(), "openfga/v1.Userset") {
+			return true
+		}
+		okID, isID := as.Lhs[1].(*ast.Ident)
+		if !isID || okID.Name == "_" {
+			return true
+		}
+		okObj := info.Defs[okID]
+		used := false
+		ast.Inspect(fd.Body, func(m ast.Node) bool {
+			if is, isIf := m.(*ast.IfStmt); isIf {
+				ast.Inspect(is.Cond, func(q ast.Node) bool {
+					if id, isIdent := q.(*ast.Ident); isIdent && info.Uses[id] == okObj {
+						used = true
+					}
+					return true
+				})
+			}
+			return true
+		})
+		if used {
+			n++
+			r.OK(rule, "membership-list:live map "+types.ExprString(ix.X), p.Pos(as.Pos()), "live-map-lookup", "the clash is tested in the relation map of the type itself, which the merger updates as it goes")
+		}
+		return true
+	})
 	if n == 0 {
-		r.Unknown(rule, "membership-list", p.Pos(fd.Pos()), "no slices.Contains membership test found in the merger")
+		r.Unknown(rule, "membership-list", p.Pos(fd.Pos()), "no membership test (slices.Contains on a collected list, or a lookup in the live relation map) found in the merger")
 	}
 }
 
